@@ -174,8 +174,57 @@ def shard(types):
     return report
 
 
+def model_user_loader_leg(report):
+    """models (every kind the generated model loader serves) below the recipe whose int loader raises ValueError on 13: every
+    combination of {good, unlucky 13, ill-typed} per field, flat, nested and inside a list; what is no LoadError under DISABLE /
+    FIRST may not be reported as a LoadError under ALL, and the modes agree on success and value"""
+    import dataclasses
+    import itertools
+    from typing import List, NamedTuple, TypedDict
+    from adaptix import DebugTrail, Retort
+
+    @dataclasses.dataclass
+    class DM:
+        a: int
+        b: str
+        c: int = 0
+
+    class NM(NamedTuple):
+        a: int
+        b: str
+        c: int = 0
+
+    class TM(TypedDict):
+        a: int
+        b: str
+
+    @dataclasses.dataclass
+    class Outer:
+        m: DM
+        ms: List[DM]
+        t: TM
+
+    retorts = {d: Retort(recipe=USER_RECIPE, debug_trail=DebugTrail[d]) for d in DEBUGS}
+    a_vals, b_vals = (1, 13, "x"), ("s", 5)
+    flat = [{"a": a, "b": b, **({"c": c} if c is not None else {})} for a in a_vals for b in b_vals for c in (None, 13, "y")]
+    programs = [(name, tp, flat) for name, tp in (("dataclass", DM), ("NamedTuple", NM), ("TypedDict", TM))]
+    nested = [{"m": m, "ms": [m2], "t": {"a": ta, "b": "s"}} for m, m2 in itertools.product(flat[::4], repeat=2) for ta in a_vals]
+    programs.append(("nested", Outer, nested))
+    for name, tp, data in programs:
+        loaders = {d: retorts[d].get_loader(tp) for d in DEBUGS}
+        for i, datum in enumerate(data):
+            import copy
+            outs = {d: mrun(loaders[d], copy.deepcopy(datum)) for d in DEBUGS}
+            report.case(("model-userloader", name, i), nontrivial=not all(o.ok for o in outs.values()),
+                        sample=lambda: {"kind": "model_userloader", "model": name, "datum": codec.enc(datum)})
+            report.outcome("load:" + "".join("A" if outs[d].ok else "R" for d in DEBUGS))
+            case = {"kind": "model_userloader", "model": name, "index": i, "node": "Model"}
+            compare_modes(outs, lambda: f"load {name} model <- {codec.show(datum, 80)} [recipe=userloader]", case, report, "C06.load")
+
+
 def run(tier):
     report = Report()
+    model_user_loader_leg(report)
     parallel.run_shards(shard, type_shards(tier, 64 if tier == "quick" else 256), report=report)
     try:
         from checks import c06_models
@@ -199,6 +248,11 @@ def replay(case):
     from mc.matrix import find_datum
     from mc.sweep import Ctx, loaders_for
     report = Report()
+    if case["kind"] == "model_userloader":
+        model_user_loader_leg(report)
+        for v in report.violations.values():
+            return v["what"]
+        return None
     if case["kind"] not in ("load", "dump", "dump_ill"):
         from checks import c06_models
         return c06_models.replay(case)
